@@ -1,7 +1,7 @@
 // The executable every generated monorail command resolves to (through a symlink named after the
 // command).  It records how it was started and does what the scenario script tells it to:
 //   $VHELPER_DIR/script.json : { "<command>|<target>": { "exit": n, "sleep_ms": n, "barrier": k,
-//                                 "chunks": [[stream(1|2), "<hex bytes>", pause_ms_after], ...] } , "*": {...} }
+//                                 "chunks": [[stream(1|2), "<hex bytes>", pause_ms_after, (repeat)], ...] } , "*": {...} }
 //   $VHELPER_DIR/trace/<unique>.start.json / .end.json : argv (hex), cwd, command, monotonic ns, run number
 use serde_json::{json, Value};
 use std::io::Write;
@@ -60,7 +60,8 @@ fn main() {
     if let Some(chunks) = ins["chunks"].as_array() {
         let so = std::io::stdout(); let se = std::io::stderr();
         for c in chunks {
-            let data = unhex(c[1].as_str().unwrap_or(""));
+            let mut data = unhex(c[1].as_str().unwrap_or(""));
+            if let Some(rep) = c[3].as_u64() { data = data.repeat(rep as usize); }       // volume without a huge script file
             if c[0].as_u64() == Some(2) { let mut h = se.lock(); let _ = h.write_all(&data); let _ = h.flush(); }
             else { let mut h = so.lock(); let _ = h.write_all(&data); let _ = h.flush(); }
             if let Some(ms) = c[2].as_u64() { if ms > 0 { std::thread::sleep(std::time::Duration::from_millis(ms)); } }
